@@ -1074,12 +1074,12 @@ def run_case(case, root):
         efsel = []
         for i in sel:
             f = regs[i]
-            if not is_field(f):
-                continue
+            # a domain is converted via a field that has that domain (CFDMImplementation.convert)
+            host = f if is_field(f) else cfdm.Field(source=f)
             for k, cm in sorted(f.cell_measures(todict=True).items()):
                 if cm.nc_get_external() and cm.has_data() and cm.nc_get_variable(None) is not None:
                     try:
-                        efsel.append([i, k, list(data_constructs(f.convert(k)))])
+                        efsel.append([i, k, list(data_constructs(host.convert(k)))])
                     except Exception:  # noqa
                         pass
         interned = {}
